@@ -54,6 +54,7 @@ func c12World(tp *Tape, env *Env) (*Plan, *Violation) {
 	plan := &Plan{Harness: 1, Property: "C12", Program: prog, Layout: &layout, World: w, Ops: ops,
 		Extra: map[string]any{"post": post, "restore": tp.Chance(25, "restore"), "snap_at": tp.Int(0, 4, "snapat")}}
 	env.St.sample(map[string]any{"script": readerTexts(&w), "post_end": describeDynOps(post)})
+	journal(plan)
 	return plan, c12Exec(plan, env.St)
 }
 
